@@ -1174,6 +1174,9 @@ impl Connection {
                 Timer::Close => {
                     self.state = State::Drained;
                     self.endpoint_events.push_back(EndpointEventInner::Drained);
+                    // Packets processed while closing may have armed other timers (e.g. key
+                    // discard); a drained connection has nothing left to wait for.
+                    self.close_common();
                 }
                 Timer::Idle => {
                     self.kill(ConnectionError::TimedOut);
